@@ -92,6 +92,8 @@ def run_scenario(case):
     good = {}
     held = []
     tokens = []
+    # the class lent in THIS scenario (a fresh class object: nothing learnt about it in an earlier scenario applies)
+    Lent = type("Widget", (servers.Widget,), {"__module__": servers.Widget.__module__})
     try:
         def own_config(c, where):
             """the connection a client is served on carries THIS client's credentials and endpoints, nobody else's"""
@@ -144,7 +146,7 @@ def run_scenario(case):
                     problems.append(("state-leak", "client sees state it did not put", [v, g["val"]]))
                 own_config(c, "later")
                 if case["server"] != "forking" or True:
-                    w = c.root.build(servers.Widget, tok)
+                    w = c.root.build(Lent, tok)
                     if w != "widget:%s" % tok:
                         problems.append(("class-leak", "a class lent by this client was not the one the server called", [w, tok]))
                 if list(g["ref"]) != [g["tok"], "mine"]:
@@ -193,7 +195,7 @@ def run_scenario(case):
                         s.sendall(rc.frame(rc.dump(msg)))
                     wr((rc.MSG_REQUEST, 1, (rc.HANDLERS["GETROOT"], (rc.LABEL_TUPLE, ()))))
                     root = rd()[2]
-                    idp = tuple(get_id_pack(servers.Widget))
+                    idp = tuple(get_id_pack(Lent))
                     wr((rc.MSG_REQUEST, 2, (rc.HANDLERS["CALLATTR"], (rc.LABEL_TUPLE, (
                         (rc.LABEL_LOCAL_REF, root[1]), (rc.LABEL_VALUE, "build"),
                         (rc.LABEL_TUPLE, ((rc.LABEL_REMOTE_REF, idp), (rc.LABEL_VALUE, "x"))), (rc.LABEL_VALUE, ()))))))
